@@ -12,6 +12,12 @@ namespace Pike
 namespace C08
 open Sys Entry
 
+/-- Obligation on the regenerated statement skeleton of `main.main` (a graceful stop): on a signal the servers are
+closed gracefully and the process exits — nothing is written, flushed or deleted on the way out, so after a graceful
+stop the store holds exactly what the completed `saved` steps put there, as after a kill (which `Sys.step .crash` and
+the `crash` suite cover). -/
+theorem graceful_stop_transcribed : Facts.skel_main = Spec.Skeleton.main_main := by rfl
+
 /-- Obligation on the regenerated statement skeletons of the three store back ends (store/redis.go, mongo.go,
 badger.go): Get, Set and Delete of each address a record by THE SAME function of the key (redis: prefix + key in all
 three; mongo: `Key = string(key)` in all three; badger: the key itself, Delete removing that one key), a miss is reported
